@@ -175,12 +175,17 @@ def explore(fn, params, spec, *, forced=(), seed=0, depth_limit=None, deadline=N
                 completed = True
             except Violation as v:
                 v.assignment = sp.assignment()
+                try:
+                    scaled = sp.assignment_scaled(v.assignment)
+                except Exception:       # noqa  (a nicety, never a verdict)
+                    scaled = None
                 v.decisions = sp.decisions()
                 v.trace = sp.trace_lines()
                 res['violations'].append(dict(
                     clause=v.clause, info={k: _jsonable(x) for k, x in v.info.items()},
                     detail=str(v.detail),
                     assignment={k: encode_value(x) for k, x in v.assignment.items()},
+                    assignment_scaled=({k: encode_value(x) for k, x in scaled.items()} if scaled else None),
                     decisions=[_jsonable(d) for d in v.decisions], trace=v.trace))
                 completed = True
             except KnownHit as k:
@@ -320,7 +325,8 @@ def write_replay(pid, hname, params, viol):
     d = os.path.join(VERIF, 'replays', pid)
     os.makedirs(d, exist_ok=True)
     body = dict(property=pid, harness=hname, params=params, clause=viol['clause'], info=viol['info'],
-                detail=viol['detail'], assignment=viol['assignment'], decisions=viol['decisions'],
+                detail=viol['detail'], assignment=viol['assignment'],
+                assignment_scaled=viol.get('assignment_scaled'), decisions=viol['decisions'],
                 trace=viol['trace'])
     blob = json.dumps(body, sort_keys=True, indent=1)
     h = hashlib.sha1(blob.encode()).hexdigest()[:12]
@@ -342,8 +348,12 @@ def do_replay(path, quiet=False):
     # reals are replayed as floats (exact on the dyadic grid) and, if that does not reproduce, as Fractions:
     # both are exact numbers; code that treats them differently is part of what a counterexample may show
     from fractions import Fraction
-    for real_as in (float, Fraction):
-        cs = ConcreteSpace(asg, real_as=real_as)
+    flavours = [(float, asg), (Fraction, asg)]
+    if body.get('assignment_scaled'):
+        # big integers that are not representable as floats (z3 confirmed they satisfy the path condition)
+        flavours.append((int, {k: decode_value(v) for k, v in body['assignment_scaled'].items()}))
+    for real_as, values in flavours:
+        cs = ConcreteSpace(values, real_as=real_as)
         try:
             spec['fn'](cs, **body['params'])
             reproduced = False
